@@ -60,7 +60,7 @@ def classify_unencodable(kind, val):
 
 
 def prim_fault_signature(kind, val, fault):
-    if kind == "TextString" and len(val) % 8 == 0 and ("re-encode differs" in fault or "residue" in fault
+    if kind == "TextString" and len(val.encode("utf-8", "surrogatepass")) % 8 == 0 and ("re-encode differs" in fault or "residue" in fault
                                                       or "third encoding" in fault):
         return "c01:reencode-differs:TextString-length-multiple-of-8"
     return "c01:prim-roundtrip:%s:%s" % (kind, fault.split(" (")[0][:40])
